@@ -756,7 +756,7 @@ func init() {
 					}
 					return op + A + B, "repetition operator at the start"
 				case 1:
-					if op == "{2}" {
+					if op == "{2}" || op == "?" { // "(?" would start a flag group
 						op = "+"
 					}
 					return A + "(" + op + B + ")", "repetition operator right after '('"
